@@ -5,6 +5,17 @@
 //   drv_tls run <cases.txt> <out.ndjson> <parallel> <certdir>
 //
 // case line:  <id> key=value ...   keys = the fields of the TlsPolicy tuple (booleans as 0/1) + variant=<n>
+//
+// URL scheme / port rows (via HttpClient): the URL is built from the tuple's scheme text in the given letter case; with
+// port=default the URL has no port and the relay listens on BOTH :443 and :80 of a private loopback address
+// (127.a.b.c derived from pid and case id, so parallel children never share it).  The TLS peer looks at the first byte of
+// every connection and answers TLS and clear text alike, so a downgraded request completes and is seen.
+//
+// time rows (certLife / when / transport): the peer's leaf certificate is issued at run time by the test CA with a
+// validity window around "now"; the boundary is crossed by moving a VIRTUAL clock: this executable defines time(),
+// which libcrypto's X509 verification (X509_cmp_time) and the engine's own time() calls resolve to (checked per tuple by
+// the canary: libcrypto's verdict on the leaf at the judged moment must be the one the tuple intends).  transport=Reused
+// starts the engine object and runs a first connection before the jump, then judges a NEW connection after it.
 // output:     one {"e":"Tuple", <configuration fields>, <observables>} event per case, separated by {"e":"Reset"}
 //
 // observables (only facts, no judgement - TlsPolicyTrace.tla judges):
@@ -16,6 +27,10 @@
 //   appOut     the peer read the engine application's marker (decrypted by OpenSSL, or raw for a non-TLS peer)
 //   appIn      the engine's application received bytes through onData / an HTTP response body
 //   clearOut   the relay saw the engine application's marker on the wire in clear text
+//   engineFirst  "none" | "tls" | "clear": was the first byte the engine put on every connection a TLS record (0x14-0x17)?
+//   canary     time rows: libcrypto judged the run-time leaf as intended at the judged moment (else the tuple is void)
+//   realised   the driver could set the tuple up (false e.g. when the default ports cannot be bound)
+//   warm       transport=Reused: the connection made before the boundary was admitted
 //   peerHs     the OpenSSL peer completed a handshake;  peerVer its protocol version (10..13, 0 = none)
 //   closed     the engine reported onClose for the session;  timeout: the tuple ran into the driver's deadline
 #include "iora/network/http_client.hpp"
@@ -43,6 +58,19 @@
 
 using namespace iora::network;
 using std::chrono::milliseconds;
+
+// virtual wall clock: everything in this process that asks time() - libcrypto's certificate validity check included -
+// sees real time + g_timeOffset
+static std::atomic<long> g_timeOffset{0};
+extern "C" time_t time(time_t *t)
+{
+  struct timespec ts;
+  clock_gettime(CLOCK_REALTIME, &ts);
+  time_t v = ts.tv_sec + (time_t)g_timeOffset.load();
+  if (t) *t = v;
+  return v;
+}
+static const long kJump = 3600; // the boundary is crossed by one hour
 
 static const std::string kEngineMarker = "IORA-C07-ENGINE-APPDATA-7f3a91c2";
 static const std::string kPeerMarker = "IORA-C07-PEER-APPDATA-c4d2e8b6";
@@ -92,7 +120,7 @@ struct Obs
 {
   std::atomic<bool> started{false}, announced{false}, accepted{false}, appOut{false}, appIn{false}, appInMarker{false},
     clearOut{false}, clearIn{false}, peerHs{false}, closed{false}, peerDone{false}, relayEngineEof{false},
-    timeout{false};
+    timeout{false}, engineFirstTls{false}, engineFirstClear{false};
   std::atomic<int> peerVer{0};
   std::mutex m;
   std::string closeMsg, peerErr, startErr;
@@ -151,6 +179,22 @@ static int listenLoopback(uint16_t &port, bool dual)
   socklen_t sl = sizeof a;
   getsockname(fd, (sockaddr *)&a, &sl);
   port = ntohs(a.sin_port);
+  return fd;
+}
+
+static int listenAt(const std::string &ip, uint16_t port)
+{
+  int fd = socket(AF_INET, SOCK_STREAM | SOCK_CLOEXEC, 0);
+  int one = 1;
+  setsockopt(fd, SOL_SOCKET, SO_REUSEADDR, &one, sizeof one);
+  sockaddr_in a{};
+  a.sin_family = AF_INET;
+  a.sin_port = htons(port);
+  if (inet_pton(AF_INET, ip.c_str(), &a.sin_addr) != 1 || bind(fd, (sockaddr *)&a, sizeof a) != 0 || listen(fd, 8) != 0)
+  {
+    close(fd);
+    return -1;
+  }
   return fd;
 }
 
@@ -220,6 +264,17 @@ struct Relay
     th = std::thread([this] { run(); });
     return true;
   }
+  bool startAt(const std::string &ip, uint16_t fixedPort, uint16_t target, bool engineAccepted, Obs *o)
+  {
+    targetPort = target;
+    engineIsAcceptedSide = engineAccepted;
+    obs = o;
+    port = fixedPort;
+    lfd = listenAt(ip, fixedPort);
+    if (lfd < 0) return false;
+    th = std::thread([this] { run(); });
+    return true;
+  }
   void run()
   {
     while (!timeUp())
@@ -238,7 +293,7 @@ struct Relay
   void shuttle(int a, int b)
   {
     std::string fromA, fromB;
-    bool aOpen = true, bOpen = true;
+    bool aOpen = true, bOpen = true, engineSpoke = false;
     double graceEnd = 0;
     while (!timeUp() && (aOpen || bOpen))
     {
@@ -258,6 +313,16 @@ struct Relay
           if (acc.size() < (1u << 20)) acc.append(buf, (size_t)n);
           if (fromEngine)
           {
+            if (!engineSpoke)
+            {
+              // every TLS record starts with its content type 0x14..0x17; anything else is not TLS
+              engineSpoke = true;
+              const unsigned char b0 = (unsigned char)buf[0];
+              if (b0 >= 0x14 && b0 <= 0x17)
+                obs->engineFirstTls = true;
+              else
+                obs->engineFirstClear = true;
+            }
             bytesFromEngine += n;
             if (acc.find(kEngineMarker) != std::string::npos) obs->clearOut = true;
           }
@@ -347,6 +412,11 @@ static bool useCert(SSL_CTX *ctx, const std::string &cert, const std::string &ke
 {
   return SSL_CTX_use_certificate_file(ctx, (g_certs + "/" + cert).c_str(), SSL_FILETYPE_PEM) == 1 &&
          SSL_CTX_use_PrivateKey_file(ctx, (g_certs + "/" + key).c_str(), SSL_FILETYPE_PEM) == 1;
+}
+
+static bool useLeaf(SSL_CTX *ctx, const vf::certs::Leaf &l)
+{
+  return SSL_CTX_use_certificate(ctx, l.cert) == 1 && SSL_CTX_use_PrivateKey(ctx, l.key) == 1;
 }
 
 static std::string httpResponse()
@@ -461,8 +531,61 @@ static bool handshake(SSL *ssl, bool server, Obs &obs)
   return false;
 }
 
-// peer when the engine is the client
-static void peerServer(const Case &c, Obs &obs, int lfd)
+// wait for the first byte of a connection without consuming it: 1 = a TLS record, 0 = something else, -1 = nothing came
+static int peekIsTls(int fd)
+{
+  while (!timeUp())
+  {
+    pollfd p{fd, POLLIN, 0};
+    if (poll(&p, 1, 50) <= 0) continue;
+    unsigned char b = 0;
+    ssize_t n = recv(fd, &b, 1, MSG_PEEK);
+    if (n == 1) return (b >= 0x14 && b <= 0x17) ? 1 : 0;
+    if (n == 0) return -1;
+    if (errno != EAGAIN && errno != EWOULDBLOCK && errno != EINTR) return -1;
+  }
+  return -1;
+}
+
+// a clear-text conversation on an accepted connection (the plaintext peer, and the TLS peer when the engine spoke clear text)
+static void clearServerSide(int fd, Obs &obs, bool http, bool answerFirst)
+{
+  if (http)
+  {
+    // a clear-text HTTP server answers whatever arrives first
+    setIoTimeout(fd, 100);
+    std::string acc;
+    while (!timeUp())
+    {
+      char buf[4096];
+      ssize_t n = recv(fd, buf, sizeof buf, 0);
+      if (n > 0)
+      {
+        acc.append(buf, (size_t)n);
+        break;
+      }
+      if (n == 0) break;
+    }
+    if (acc.find(kEngineMarker) != std::string::npos) obs.appOut = true;
+    std::string r = httpResponse();
+    send(fd, r.data(), r.size(), MSG_NOSIGNAL);
+  }
+  else if (answerFirst)
+  {
+    send(fd, kPeerMarker.data(), kPeerMarker.size(), MSG_NOSIGNAL); // a banner, like SMTP/FTP servers send
+  }
+  rawDrain(fd, obs, kEngineMarker, obs.appOut, true);
+  if (obs.appOut)
+  {
+    // let the reply travel before closing
+    double until = vf::nowSec() + 0.2;
+    while (!timeUp() && vf::nowSec() < until && !obs.appInMarker) usleep(5000);
+  }
+}
+
+// peer when the engine is the client.  The TLS peer decides per connection, on its first byte, whether to answer TLS or
+// clear text (so that a session that was silently downgraded completes and is seen for what it is).
+static void peerServer(const Case &c, Obs &obs, int lfd, const vf::certs::Leaf *leaf)
 {
   const std::string kind = c.s("peerKind");
   const bool http = c.s("via") == "HttpClient";
@@ -472,72 +595,51 @@ static void peerServer(const Case &c, Obs &obs, int lfd)
     if (fd < 0) break;
     if (kind == "TLS")
     {
-      SSL_CTX *ctx = peerCtx(true, c.i("serverMax"));
-      const std::string sc = c.s("serverCert");
-      bool ok = sc == "Valid"        ? useCert(ctx, "srv_valid.pem", "srv_valid.key")
-                : sc == "SelfSigned" ? useCert(ctx, "srv_selfsigned.pem", "srv_selfsigned.key")
-                : sc == "Expired"    ? useCert(ctx, "srv_expired.pem", "srv_expired.key")
-                : sc == "WrongName"  ? useCert(ctx, "srv_wrongname.pem", "srv_wrongname.key")
-                                     : useCert(ctx, "srv_valid.pem", "srv_mismatch.key");
-      if (!ok) obs.setPeerErr("peer cert load: " + sslErr());
-      SSL *ssl = SSL_new(ctx);
-      SSL_set_fd(ssl, fd);
-      setIoTimeout(fd, 100);
-      if (ok && handshake(ssl, true, obs))
+      const int first = peekIsTls(fd);
+      if (first == 0)
       {
-        obs.peerVer = verToNum(SSL_version(ssl));
-        obs.peerHs = true;
-        tlsExchange(ssl, fd, obs, http ? Xchg::HttpServer : Xchg::Raw);
-        SSL_shutdown(ssl);
+        clearServerSide(fd, obs, http, true);
       }
-      else
+      else if (first == 1)
       {
-        // keep the socket open for a moment: whatever the engine still sends is seen by the relay
-        double until = vf::nowSec() + 0.3;
-        setIoTimeout(fd, 50);
-        char buf[4096];
-        while (!timeUp() && vf::nowSec() < until)
+        SSL_CTX *ctx = peerCtx(true, c.i("serverMax"));
+        const std::string sc = c.s("serverCert");
+        bool ok = leaf               ? useLeaf(ctx, *leaf)
+                  : sc == "Valid"      ? useCert(ctx, "srv_valid.pem", "srv_valid.key")
+                  : sc == "SelfSigned" ? useCert(ctx, "srv_selfsigned.pem", "srv_selfsigned.key")
+                  : sc == "Expired"    ? useCert(ctx, "srv_expired.pem", "srv_expired.key")
+                  : sc == "WrongName"  ? useCert(ctx, "srv_wrongname.pem", "srv_wrongname.key")
+                                       : useCert(ctx, "srv_valid.pem", "srv_mismatch.key");
+        if (!ok) obs.setPeerErr("peer cert load: " + sslErr());
+        SSL *ssl = SSL_new(ctx);
+        SSL_set_fd(ssl, fd);
+        setIoTimeout(fd, 100);
+        if (ok && handshake(ssl, true, obs))
         {
-          ssize_t n = recv(fd, buf, sizeof buf, 0);
-          if (n == 0) break;
+          obs.peerVer = verToNum(SSL_version(ssl));
+          obs.peerHs = true;
+          tlsExchange(ssl, fd, obs, http ? Xchg::HttpServer : Xchg::Raw);
+          SSL_shutdown(ssl);
         }
+        else
+        {
+          // keep the socket open for a moment: whatever the engine still sends is seen by the relay
+          double until = vf::nowSec() + 0.3;
+          setIoTimeout(fd, 50);
+          char buf[4096];
+          while (!timeUp() && vf::nowSec() < until)
+          {
+            ssize_t n = recv(fd, buf, sizeof buf, 0);
+            if (n == 0) break;
+          }
+        }
+        SSL_free(ssl);
+        SSL_CTX_free(ctx);
       }
-      SSL_free(ssl);
-      SSL_CTX_free(ctx);
     }
     else if (kind == "Plaintext")
     {
-      if (http)
-      {
-        // a clear-text HTTP server answers whatever arrives first
-        setIoTimeout(fd, 100);
-        std::string acc;
-        while (!timeUp())
-        {
-          char buf[4096];
-          ssize_t n = recv(fd, buf, sizeof buf, 0);
-          if (n > 0)
-          {
-            acc.append(buf, (size_t)n);
-            break;
-          }
-          if (n == 0) break;
-        }
-        if (acc.find(kEngineMarker) != std::string::npos) obs.appOut = true;
-        std::string r = httpResponse();
-        send(fd, r.data(), r.size(), MSG_NOSIGNAL);
-      }
-      else
-      {
-        send(fd, kPeerMarker.data(), kPeerMarker.size(), MSG_NOSIGNAL); // a banner, like SMTP/FTP servers send
-      }
-      rawDrain(fd, obs, kEngineMarker, obs.appOut, true);
-      if (obs.appOut)
-      {
-        // let the reply travel before closing
-        double until = vf::nowSec() + 0.2;
-        while (!timeUp() && vf::nowSec() < until && !obs.appInMarker) usleep(5000);
-      }
+      clearServerSide(fd, obs, http, true);
     }
     else
     {
@@ -552,7 +654,7 @@ static void peerServer(const Case &c, Obs &obs, int lfd)
 }
 
 // peer when the engine is the server
-static void peerClient(const Case &c, Obs &obs, uint16_t port)
+static void peerClient(const Case &c, Obs &obs, uint16_t port, const vf::certs::Leaf *leaf)
 {
   const std::string kind = c.s("peerKind");
   const bool http = c.s("via") == "HttpServer";
@@ -568,9 +670,14 @@ static void peerClient(const Case &c, Obs &obs, uint16_t port)
     SSL_CTX *ctx = peerCtx(false, c.i("clientMax"));
     const std::string cc = c.s("clientCert");
     bool ok = true;
-    if (cc == "Valid") ok = useCert(ctx, "cli_valid.pem", "cli_valid.key");
-    if (cc == "Untrusted") ok = useCert(ctx, "cli_untrusted.pem", "cli_untrusted.key");
-    if (cc == "Expired") ok = useCert(ctx, "cli_expired.pem", "cli_expired.key");
+    if (leaf)
+      ok = useLeaf(ctx, *leaf);
+    else if (cc == "Valid")
+      ok = useCert(ctx, "cli_valid.pem", "cli_valid.key");
+    else if (cc == "Untrusted")
+      ok = useCert(ctx, "cli_untrusted.pem", "cli_untrusted.key");
+    else if (cc == "Expired")
+      ok = useCert(ctx, "cli_expired.pem", "cli_expired.key");
     if (!ok) obs.setPeerErr("peer cert load: " + sslErr());
     SSL *ssl = SSL_new(ctx);
     SSL_set_fd(ssl, fd);
@@ -601,6 +708,89 @@ static void peerClient(const Case &c, Obs &obs, uint16_t port)
   obs.peerDone = true;
 }
 
+// ------------------------------------------------------------------------------------------------ rigs
+// everything on the far side of ONE connection attempt of a client-role tuple: the scripted server, the relay(s) in front
+// of it, and the Obs they report to.  A tuple with transport=Reused has two of them (before / after the boundary), so that
+// nothing of the first connection can leak into the observables of the judged one.
+struct ClientRig
+{
+  Obs *obs = nullptr;
+  int plfd = -1;
+  uint16_t pport = 0;
+  Relay relay, relay80;
+  bool defaultPorts = false;
+  std::string host; // what the engine is told to connect to
+  uint16_t port = 0; // 0: no port in the URL
+  std::thread peer;
+
+  bool start(const Case &c, Obs *o, const vf::certs::Leaf *leaf)
+  {
+    obs = o;
+    plfd = listenLoopback(pport, false);
+    if (plfd < 0) return false;
+    defaultPorts = c.s("port") == "default";
+    if (defaultPorts)
+    {
+      // a loopback address of our own: nobody else listens on its :443 / :80
+      const long pid = (long)getpid();
+      host = "127." + std::to_string(16 + pid % 200) + "." + std::to_string((c.id / 254) % 256) + "." +
+             std::to_string(1 + c.id % 254);
+      port = 0;
+      if (!relay.startAt(host, 443, pport, true, o) || !relay80.startAt(host, 80, pport, true, o)) return false;
+    }
+    else
+    {
+      host = c.b("byName") ? "localhost" : "127.0.0.1";
+      if (!relay.start(pport, true, o)) return false;
+      port = relay.port;
+    }
+    peer = std::thread([this, &c, leaf] { peerServer(c, *obs, plfd, leaf); });
+    return true;
+  }
+  void join()
+  {
+    if (peer.joinable()) peer.join();
+    relay.join();
+    relay80.join();
+    if (plfd >= 0) close(plfd);
+    plfd = -1;
+  }
+};
+
+// the run-time leaf of a time row (nullptr for the static rows) and the canary
+struct TimeRow
+{
+  bool active = false, after = false, reused = false, expectOk = true;
+  vf::certs::Leaf leaf;
+  bool canaryOk = true;
+  const vf::certs::Leaf *ptr() const { return active ? &leaf : nullptr; }
+
+  void init(const Case &c)
+  {
+    const std::string life = c.s("certLife");
+    active = life == "ExpiresLater" || life == "ValidLater";
+    after = c.s("when") == "After";
+    reused = c.s("transport") == "Reused";
+    if (!active) return;
+    const bool server = c.s("role") == "Client"; // the PEER's certificate: a server certificate when the engine is the client
+    const char *cn = server ? "localhost" : "client";
+    const char *san = server ? "DNS:localhost,IP:127.0.0.1,IP:::1" : nullptr;
+    if (life == "ExpiresLater")
+      leaf = vf::certs::makeLeafNow(g_certs, cn, san, -86400, kJump / 4); // expires a quarter of an hour from now
+    else
+      leaf = vf::certs::makeLeafNow(g_certs, cn, san, kJump / 2, 315360000L); // becomes valid half an hour from now
+    expectOk = (life == "ExpiresLater") ? !after : after;
+  }
+  // move the clock across the boundary (if the judged connection is after it) and ask libcrypto what it thinks now
+  void cross()
+  {
+    if (!active) return;
+    if (after) g_timeOffset = kJump;
+    const int v = vf::certs::verifyNow(leaf);
+    canaryOk = expectOk ? v == 0 : (v == X509_V_ERR_CERT_HAS_EXPIRED || v == X509_V_ERR_CERT_NOT_YET_VALID);
+  }
+};
+
 // ------------------------------------------------------------------------------------------------ engine side
 static void fillTls(TransportConfig::TlsConfig &t, const Case &c, TlsMode mode)
 {
@@ -627,30 +817,48 @@ static void waitUntil(const std::function<bool()> &done)
 {
   while (!timeUp() && !done()) usleep(2000);
 }
-
-static void runClientTransport(const Case &c, Obs &obs, uint16_t port, bool sync)
+static void waitFor(double sec, const std::function<bool()> &done)
 {
+  const double until = vf::nowSec() + sec;
+  while (!timeUp() && vf::nowSec() < until && !done()) usleep(2000);
+}
+
+struct TupleRun
+{
+  Obs obs;      // the judged connection
+  Obs warmObs;  // the connection before the boundary (transport=Reused)
+  bool warm = false, realised = true;
+  TimeRow tr;
+};
+
+static void runClientTransport(const Case &c, TupleRun &R, bool sync)
+{
+  Obs &obs = R.obs;
+  TimeRow &tr = R.tr;
+  if (tr.active && tr.after && !tr.reused) g_timeOffset = kJump; // a fresh transport, started after the boundary
   TransportConfig tc;
   tc.connectTimeout = milliseconds(2500);
   tc.handshakeTimeout = milliseconds(2500);
   fillTls(tc.clientTls, c, TlsMode::Client);
   tc.clientTls.verifyPeer = c.b("verify");
   auto t = Transport::tcp(tc);
+  std::atomic<Obs *> cur{tr.reused ? &R.warmObs : &obs};
   std::string acc; // touched by the I/O thread only
   t->onConnect(
     [&](SessionId sid, const TransportAddress &)
     {
-      obs.announced = true;
+      cur.load()->announced = true;
       t->send(sid, kEngineMarker.data(), kEngineMarker.size());
     });
   t->onData(
     [&](SessionId, iora::core::BufferView d, std::chrono::steady_clock::time_point)
     {
-      obs.appIn = true;
+      Obs *o = cur.load();
+      o->appIn = true;
       acc.append((const char *)d.data(), d.size());
-      if (acc.find(kPeerMarker) != std::string::npos) obs.appInMarker = true;
+      if (acc.find(kPeerMarker) != std::string::npos) o->appInMarker = true;
     });
-  t->onClose([&](SessionId, const TransportErrorInfo &e) { obs.setClose(e.message); obs.closed = true; });
+  t->onClose([&](SessionId, const TransportErrorInfo &e) { cur.load()->setClose(e.message); cur.load()->closed = true; });
   auto sr = t->start();
   obs.started = sr.isOk();
   if (!sr.isOk())
@@ -658,82 +866,163 @@ static void runClientTransport(const Case &c, Obs &obs, uint16_t port, bool sync
     obs.startErr = sr.error().message.substr(0, 100);
     return;
   }
-  const std::string host = c.b("byName") ? "localhost" : "127.0.0.1";
   const TlsMode mode = c.b("tlsRequested") ? TlsMode::Client : TlsMode::None;
-  if (sync)
+  // one connection attempt against one rig; returns the session id (0 if none)
+  auto attempt = [&](ClientRig &rig, Obs &o) -> SessionId
   {
-    auto r = t->connectSync(host, port, mode, milliseconds(3000));
-    if (r.isOk())
+    SessionId sid = 0;
+    if (sync)
     {
-      obs.announced = true;
-      t->send(r.value(), kEngineMarker.data(), kEngineMarker.size());
+      auto r = t->connectSync(rig.host, rig.port, mode, milliseconds(3000));
+      if (r.isOk())
+      {
+        sid = r.value();
+        o.announced = true;
+        t->send(sid, kEngineMarker.data(), kEngineMarker.size());
+      }
+      else
+      {
+        o.setClose("connectSync: " + r.error().message);
+        o.closed = true;
+      }
     }
     else
     {
-      obs.setClose("connectSync: " + r.error().message);
-      obs.closed = true;
+      auto r = t->connect(rig.host, rig.port, mode);
+      if (r.isOk())
+      {
+        sid = r.value();
+        t->send(sid, kEngineMarker.data(), kEngineMarker.size()); // before the announce: must be queued, never sent raw
+      }
+      else
+      {
+        o.setClose("connect: " + r.error().message);
+        o.closed = true;
+      }
     }
-  }
-  else
+    waitUntil([&] { return o.closed || (o.announced && o.appInMarker && o.appOut); });
+    if (o.closed && !o.relayEngineEof) waitFor(0.3, [&] { return o.relayEngineEof.load(); });
+    return sid;
+  };
+  ClientRig warmRig, rig;
+  if (tr.reused)
   {
-    auto r = t->connect(host, port, mode);
-    if (r.isOk())
-      t->send(r.value(), kEngineMarker.data(), kEngineMarker.size()); // before the announce: must be queued, never sent raw
+    if (!warmRig.start(c, &R.warmObs, tr.ptr()))
+    {
+      R.realised = false;
+      obs.startErr = "peer/relay listen failed";
+    }
     else
     {
-      obs.setClose("connect: " + r.error().message);
-      obs.closed = true;
+      SessionId sid = attempt(warmRig, R.warmObs);
+      R.warm = R.warmObs.announced && R.warmObs.appOut;
+      if (sid && !R.warmObs.closed)
+      {
+        t->close(sid);
+        waitFor(1.0, [&] { return R.warmObs.closed.load(); });
+      }
+      acc.clear();
     }
   }
-  waitUntil([&] { return obs.closed || (obs.announced && obs.appInMarker && obs.appOut); });
-  if (obs.closed && !obs.relayEngineEof)
+  tr.cross();
+  cur = &obs;
+  if (R.realised)
   {
-    // the engine reported the close; give the relay a moment to see the end of the byte stream
-    double until = vf::nowSec() + 0.3;
-    while (vf::nowSec() < until && !obs.relayEngineEof) usleep(2000);
+    if (!rig.start(c, &obs, tr.ptr()))
+    {
+      R.realised = false;
+      obs.startErr = "peer/relay listen failed";
+    }
+    else
+      attempt(rig, obs);
   }
   if (vf::nowSec() > g_deadline) obs.timeout = true;
   g_stop = true;
   t->stop();
+  warmRig.join();
+  rig.join();
 }
 
-static void runClientHttp(const Case &c, Obs &obs, uint16_t port)
+static std::string schemeText(const Case &c)
 {
+  const std::string s = c.s("scheme");
+  if (s == "garbage")
+  {
+    static const char *const g[] = {"httpss", "ftp", "htps", "shttp", "https+x"};
+    return g[c.i("variant") % 5];
+  }
+  if (s.empty() || s == "-") return c.b("tlsRequested") ? "https" : "http";
+  return s;
+}
+
+static void runClientHttp(const Case &c, TupleRun &R)
+{
+  Obs &obs = R.obs;
+  TimeRow &tr = R.tr;
+  if (tr.active && tr.after && !tr.reused) g_timeOffset = kJump;
   HttpClient::Config hc;
   hc.connectTimeout = milliseconds(2500);
   hc.requestTimeout = milliseconds(2500);
   hc.followRedirects = false;
   hc.reuseConnections = false;
+  ClientRig warmRig, rig;
   {
     HttpClient client(hc);
     HttpClient::TlsConfig tls;
     tls.verifyPeer = c.b("verify");
     client.setTlsConfig(tls);
     obs.started = true;
-    const std::string host = c.b("byName") ? "localhost" : "127.0.0.1";
-    const std::string url = std::string(c.b("tlsRequested") ? "https://" : "http://") + host + ":" +
-                            std::to_string(port) + "/c07?m=" + kEngineMarker;
-    try
+    auto attempt = [&](ClientRig &rg, Obs &o)
     {
-      auto resp = client.get(url, {{"X-Marker", kEngineMarker}}, 0);
-      obs.announced = true;
-      if (!resp.body.empty()) obs.appIn = true;
-      if (resp.body.find(kPeerMarker) != std::string::npos) obs.appInMarker = true;
-    }
-    catch (const std::exception &e)
+      const std::string url = schemeText(c) + "://" + rg.host + (rg.port ? ":" + std::to_string(rg.port) : std::string()) +
+                              "/c07?m=" + kEngineMarker;
+      try
+      {
+        auto resp = client.get(url, {{"X-Marker", kEngineMarker}, {"Authorization", "Bearer " + kEngineMarker}}, 0);
+        o.announced = true;
+        if (!resp.body.empty()) o.appIn = true;
+        if (resp.body.find(kPeerMarker) != std::string::npos) o.appInMarker = true;
+      }
+      catch (const std::exception &e)
+      {
+        o.setClose(std::string("http: ") + e.what());
+        o.closed = true;
+      }
+      waitFor(0.3, [&] { return o.relayEngineEof || (o.announced && o.appOut); });
+    };
+    if (tr.reused)
     {
-      obs.setClose(std::string("http: ") + e.what());
-      obs.closed = true;
+      if (!warmRig.start(c, &R.warmObs, tr.ptr()))
+        R.realised = false;
+      else
+      {
+        attempt(warmRig, R.warmObs);
+        R.warm = R.warmObs.announced && R.warmObs.appOut;
+      }
     }
-    double until = vf::nowSec() + 0.3;
-    while (vf::nowSec() < until && !(obs.relayEngineEof || (obs.announced && obs.appOut))) usleep(2000);
+    tr.cross();
+    if (R.realised)
+    {
+      if (!rig.start(c, &obs, tr.ptr()))
+      {
+        R.realised = false;
+        obs.startErr = "peer/relay listen failed (default ports not bindable?)";
+      }
+      else
+        attempt(rig, obs);
+    }
     if (vf::nowSec() > g_deadline) obs.timeout = true;
     g_stop = true;
   }
+  warmRig.join();
+  rig.join();
 }
 
-static void runServer(const Case &c, Obs &obs)
+static void runServer(const Case &c, TupleRun &R)
 {
+  Obs &obs = R.obs;
+  TimeRow &tr = R.tr;
+  if (tr.active && tr.after && !tr.reused) g_timeOffset = kJump;
   TransportConfig tc;
   tc.handshakeTimeout = milliseconds(2500);
   fillTls(tc.serverTls, c, TlsMode::Server);
@@ -745,27 +1034,29 @@ static void runServer(const Case &c, Obs &obs)
     tc.serverTls.verifyPeer = c.b("requireClientCert");
   }
   auto t = Transport::tcp(tc);
+  std::atomic<Obs *> cur{tr.reused ? &R.warmObs : &obs};
   std::string acc; // touched by the I/O thread only
   t->onAccept(
     [&](SessionId sid, const TransportAddress &)
     {
-      obs.accepted = true;
+      cur.load()->accepted = true;
       t->send(sid, kEngineMarker.data(), kEngineMarker.size()); // a banner before the handshake is over: must be queued
     });
   t->onConnect(
     [&](SessionId sid, const TransportAddress &)
     {
-      obs.announced = true;
+      cur.load()->announced = true;
       t->send(sid, kEngineMarker.data(), kEngineMarker.size());
     });
   t->onData(
     [&](SessionId, iora::core::BufferView d, std::chrono::steady_clock::time_point)
     {
-      obs.appIn = true;
+      Obs *o = cur.load();
+      o->appIn = true;
       acc.append((const char *)d.data(), d.size());
-      if (acc.find(kPeerMarker) != std::string::npos) obs.appInMarker = true;
+      if (acc.find(kPeerMarker) != std::string::npos) o->appInMarker = true;
     });
-  t->onClose([&](SessionId, const TransportErrorInfo &e) { obs.setClose(e.message); obs.closed = true; });
+  t->onClose([&](SessionId, const TransportErrorInfo &e) { cur.load()->setClose(e.message); cur.load()->closed = true; });
   auto sr = t->start();
   if (!sr.isOk())
   {
@@ -781,32 +1072,54 @@ static void runServer(const Case &c, Obs &obs)
   }
   obs.started = true;
   uint16_t eport = t->getListenerAddress(lr.value()).port;
-  Relay relay;
-  if (!relay.start(eport, false, &obs))
+  // one scripted client against the listener, through a relay of its own
+  struct ServerRig
   {
-    obs.startErr = "relay failed";
-    t->stop();
-    return;
-  }
-  std::thread peer([&] { peerClient(c, obs, relay.port); });
-  double peerDoneAt = 0;
-  waitUntil(
-    [&]
+    Relay relay;
+    std::thread peer;
+  };
+  auto attempt = [&](ServerRig &rg, Obs &o) -> bool
+  {
+    if (!rg.relay.start(eport, false, &o)) return false;
+    rg.peer = std::thread([&] { peerClient(c, o, rg.relay.port, tr.ptr()); });
+    double peerDoneAt = 0;
+    waitUntil(
+      [&]
+      {
+        if (o.peerDone && peerDoneAt == 0) peerDoneAt = vf::nowSec();
+        if (o.peerDone && (o.closed || (o.appInMarker && o.appOut))) return true;
+        return peerDoneAt > 0 && vf::nowSec() - peerDoneAt > 0.6; // the peer is gone and the engine has nothing to report
+      });
+    if (!o.relayEngineEof && o.closed) waitFor(0.3, [&] { return o.relayEngineEof.load(); });
+    return true;
+  };
+  ServerRig warmRig, rig;
+  if (tr.reused)
+  {
+    if (!attempt(warmRig, R.warmObs))
+      R.realised = false;
+    else
     {
-      if (obs.peerDone && peerDoneAt == 0) peerDoneAt = vf::nowSec();
-      if (obs.peerDone && (obs.closed || (obs.appInMarker && obs.appOut))) return true;
-      return peerDoneAt > 0 && vf::nowSec() - peerDoneAt > 0.6; // the peer is gone and the engine has nothing to report
-    });
-  if (!obs.relayEngineEof && obs.closed)
+      R.warm = R.warmObs.announced && R.warmObs.appOut;
+      // the first session must be over before the observables are switched to the judged one
+      waitFor(1.0, [&] { return R.warmObs.closed.load() || !R.warmObs.accepted; });
+      acc.clear();
+    }
+  }
+  tr.cross();
+  cur = &obs;
+  if (R.realised && !attempt(rig, obs))
   {
-    double until = vf::nowSec() + 0.3;
-    while (vf::nowSec() < until && !obs.relayEngineEof) usleep(2000);
+    R.realised = false;
+    obs.startErr = "relay failed";
   }
   if (vf::nowSec() > g_deadline) obs.timeout = true;
   g_stop = true;
-  peer.join();
+  if (warmRig.peer.joinable()) warmRig.peer.join();
+  if (rig.peer.joinable()) rig.peer.join();
   t->stop();
-  relay.join();
+  warmRig.relay.join();
+  rig.relay.join();
 }
 
 // the port of the only listening TCP socket of this process (call before the relay / peer open theirs); 0 if none or several
@@ -836,8 +1149,9 @@ static int soleListeningPort()
 }
 
 // engine = server through HttpServer::enableTls (requireClientCert is mapped to serverTls.verifyPeer there)
-static void runServerHttp(const Case &c, Obs &obs)
+static void runServerHttp(const Case &c, TupleRun &R)
 {
+  Obs &obs = R.obs;
   // port 0: the kernel picks a free port that nobody else can share (the engine sets SO_REUSEPORT, so a fixed port could
   // be shared with a foreign listener); HttpServer cannot report it, it is read back from the process's own socket below
   HttpServer srv("127.0.0.1", 0);
@@ -873,6 +1187,7 @@ static void runServerHttp(const Case &c, Obs &obs)
   if (port <= 0)
   {
     obs.startErr = "cannot find the HttpServer's listening socket";
+    R.realised = false;
     srv.stop();
     return;
   }
@@ -881,10 +1196,11 @@ static void runServerHttp(const Case &c, Obs &obs)
   if (!relay.start((uint16_t)port, false, &obs))
   {
     obs.startErr = "relay failed";
+    R.realised = false;
     srv.stop();
     return;
   }
-  std::thread peer([&] { peerClient(c, obs, relay.port); });
+  std::thread peer([&] { peerClient(c, obs, relay.port, nullptr); });
   double peerDoneAt = 0;
   waitUntil(
     [&]
@@ -917,54 +1233,43 @@ static std::string runCase(const Case &c)
   const std::string store = a == "RightCA" ? "/ca.pem" : a == "WrongCA" ? "/ca2.pem" : "/empty.pem";
   setenv("SSL_CERT_FILE", (g_certs + store).c_str(), 1);
   setenv("SSL_CERT_DIR", (g_certs + "/emptydir").c_str(), 1);
-  g_deadline = vf::nowSec() + 4.0;
-  Obs obs;
+  TupleRun R;
+  Obs &obs = R.obs;
   try
   {
+    R.tr.init(c);
+    g_deadline = vf::nowSec() + (R.tr.reused ? 7.0 : 4.0);
+    const std::string via = c.s("via");
     if (c.s("role") == "Client")
     {
-      uint16_t pport = 0;
-      int plfd = listenLoopback(pport, false);
-      Relay relay;
-      if (plfd < 0 || !relay.start(pport, true, &obs))
-      {
-        obs.startErr = "peer/relay listen failed";
-      }
+      if (via == "HttpClient")
+        runClientHttp(c, R);
       else
-      {
-        std::thread peer([&] { peerServer(c, obs, plfd); });
-        const std::string via = c.s("via");
-        if (via == "HttpClient")
-          runClientHttp(c, obs, relay.port);
-        else
-          runClientTransport(c, obs, relay.port, via == "TransportSync");
-        g_stop = true;
-        peer.join();
-        relay.join();
-        close(plfd);
-      }
+        runClientTransport(c, R, via == "TransportSync");
     }
-    else if (c.s("via") == "HttpServer")
-    {
-      runServerHttp(c, obs);
-    }
+    else if (via == "HttpServer")
+      runServerHttp(c, R);
     else
-    {
-      runServer(c, obs);
-    }
+      runServer(c, R);
   }
   catch (const std::exception &e)
   {
     obs.startErr = std::string("exception: ") + e.what();
+    R.realised = false;
   }
+  g_stop = true;
   vf::Ev ev("Tuple");
   ev.i("id", c.id);
-  for (const char *k : {"role", "via", "peerKind", "anchor", "serverCert", "clientCert"}) ev.str(k, c.s(k));
+  for (const char *k : {"role", "via", "peerKind", "anchor", "serverCert", "clientCert", "scheme", "port", "certLife", "when",
+                        "transport"})
+    ev.str(k, c.s(k));
   for (const char *k : {"tlsRequested", "tlsEnabled", "verify", "requireClientCert", "byName", "lax"}) ev.b(k, c.b(k));
   for (const char *k : {"clientMax", "serverMax", "engineMin", "variant"}) ev.i(k, c.i(k));
   ev.b("started", obs.started).b("announced", obs.announced).b("accepted", obs.accepted).b("appOut", obs.appOut);
   ev.b("appIn", obs.appIn).b("appInMarker", obs.appInMarker).b("clearOut", obs.clearOut).b("clearIn", obs.clearIn);
+  ev.str("engineFirst", obs.engineFirstClear ? "clear" : obs.engineFirstTls ? "tls" : "none");
   ev.b("peerHs", obs.peerHs).i("peerVer", obs.peerVer).b("closed", obs.closed).b("timeout", obs.timeout);
+  ev.b("canary", R.tr.canaryOk).b("realised", R.realised).b("warm", R.warm);
   ev.str("closeMsg", obs.closeMsg).str("peerErr", obs.peerErr).str("startErr", obs.startErr);
   return ev.done() + "\n";
 }
@@ -987,7 +1292,7 @@ int main(int argc, char **argv)
     }
     std::vector<Case> cases;
     for (auto &l : lines) cases.push_back(parseCase(l));
-    auto r = vf::runMany((int)cases.size(), atoi(argv[4]), 25.0, std::string(argv[3]) + ".d", argv[3],
+    auto r = vf::runMany((int)cases.size(), atoi(argv[4]), 30.0, std::string(argv[3]) + ".d", argv[3],
                          [&](int i) { return runCase(cases[i]); });
     printf("executions=%d crashed=%d timedOut=%d\n", r.executions, r.crashed, r.timedOut);
     return 0;
